@@ -375,11 +375,19 @@ def r6_reports_reach_the_tree(ctx):
         yield o
 
 
+def r7_presence_through_format(ctx):
+    """presence of a position is `get_value(..) != ''`, and get_value prints a composite through Composite.format: an absent composite written as separators only must print as the empty string (C01.R8, shared)"""
+    from . import c01
+    for o in c01.r8_format_keeps_values(ctx):
+        yield o
+
+
 RULES = [
     Rule('C14.R1', 'syntax notes of every indexed map are well formed (parse as _split_syntax expects)', r1_data, floor=1500),
     Rule('C14.R2', 'letter list = branch labels = PRECL; fall-through rejects; position slices tile the note', r2_letters, floor=4),
     Rule('C14.R3', 'is_syntax_valid decided per letter over all presence patterns (notes of 2-4 positions, segments of 0-6 elements) against the X12 definitions', r3_semantics, floor=5),
     Rule('C14.R4', 'failed note -> ele_error code 10 iff E else 2, result cleared; satisfied note reports nothing', r4_routing, floor=3),
+    Rule('C14.R7', 'shared with C01.R8: a composite of empty components formats to the empty string', r7_presence_through_format, floor=2),
     Rule('C14.R6', 'shared with C03.R2: the error node of a violated note is linked into the error tree on every path', r6_reports_reach_the_tree, floor=2),
     Rule('C14.R5', 'the element a note error is attached to is looked up without raising', r5_attachment_lookup, floor=2),
 ]
